@@ -112,6 +112,7 @@ def run(name, props, in_repo=False):
         for p in props:
             env = dict(os.environ)
             env["VERIF_REPO"] = wt
+            env["VERIF_EVIDENCE_DIR"] = os.path.join(d, "evidence")
             t0 = time.time()
             rc, out = sh(f"./run.sh quick {p}", cwd=VERIF, env=env, timeout=3600)
             vio = [l for l in out.splitlines() if l.startswith("VIOLATION")]
